@@ -57,7 +57,7 @@ class C03(Prop):
             tx, _, _ = demodlib.transmission(ctx, mod, src, dst, can, audio)
             sent = demodlib.sent_stream_payloads(ctx, mod, audio)
             lsf = list(S.make_lsf(dst, src, typ=0x0005, can=can))
-            for trial in range(3):
+            for trial in range(10 if k == 0 else 3):
                 p = {"gain": rng.choice([300, 1000, 3500, rng.randrange(300, 3501)]), "dc": rng.randrange(-300, 301), "sigma": rng.choice([0, 5, 20, 50]),
                      "delay": rng.randrange(1000), "ppm": rng.choice([-200, 200, 0, rng.randrange(-200, 201)]), "lead": rng.randrange(6),
                      "leadn": rng.choice([0, 0, 137, 1920, 5000, 48000]), "level": rng.choice([0, 10, 100, 1000, 5000]), "seed": rng.randrange(10 ** 6), "app": 0}
@@ -71,7 +71,7 @@ class C03(Prop):
                 if (rng.random() < 0.2 or k == 0) and k < n:
                     # (the first case always: a COMPLETE earlier transmission of another station to the same destination, then this one -
                     # LICH fragments 0, 3 and 4 of the two link setup frames are byte-identical)
-                    a2 = [rng.randrange(-8000, 8000) for _ in range(320 * (30 if k == 0 else 6))]
+                    a2 = [rng.randrange(-8000, 8000) for _ in range(320 * (80 if k == 0 else 6))]      # long enough to be received completely (LSF through the LICH)
                     prev, _, _ = demodlib.transmission(ctx, mod, "N0CALL", "", 3, a2)
                     pre = (prev if (rng.random() < 0.5 or k == 0) else prev[:rng.randrange(2000, len(prev) + 1)]) + [0] * rng.choice([0, 480, 9600])
                 n_pre = 0
